@@ -348,7 +348,7 @@ int main(int argc, char** argv) {
         }
         else if (!strcmp(op, "create")) {
             int k = SLOT(1); unsigned f = (unsigned)NUM(2);
-            lib_free_slot(k);
+            if (g_slot[k]) { printf("> skip\n"); continue; }
             printf("> create %u\n", f);
             polyseed_data* s = (polyseed_data*)(uintptr_t)0x5EED;
             g_in_lib = true; polyseed_status st = polyseed_create(f, &s); g_in_lib = false;
@@ -411,7 +411,7 @@ int main(int argc, char** argv) {
             size_t n = unhex(ARG(ex ? 4 : 3), hbuf, sizeof hbuf);
             if (memchr(hbuf, 0, n)) die("NUL inside string");
             if (ex && (li < 0 || li >= polyseed_get_num_langs())) { printf("> skip\n"); continue; }
-            lib_free_slot(k);
+            if (g_slot[k]) { printf("> skip\n"); continue; }
             if (ex) printf("> decodex %u %d ", coin, li); else printf("> decode %u ", coin);
             puthex(hbuf, n); printf("\n");
             guard g = gstr(hbuf, n);
@@ -445,7 +445,7 @@ int main(int argc, char** argv) {
             int k = SLOT(1);
             size_t n = unhex(ARG(2), hbuf, sizeof hbuf);
             if (n != POLYSEED_SIZE) die("load needs 32 bytes");
-            lib_free_slot(k);
+            if (g_slot[k]) { printf("> skip\n"); continue; }
             printf("> load "); puthex(hbuf, n); printf("\n");
             guard g = galloc(POLYSEED_SIZE, 0);
             memcpy(g.ptr, hbuf, n);
@@ -468,6 +468,9 @@ int main(int argc, char** argv) {
             if (memcmp(g.ptr, hbuf, n) || g.ptr[n] != 0) printf("! crypt modified its input\n");
             printf("< ok\n");
             gfree(g);
+        }
+        else if (!strcmp(op, "note")) {
+            printf("> note\n< ok\n");
         }
         else if (!strcmp(op, "numlangs")) {
             printf("> numlangs\n< v=%d\n", polyseed_get_num_langs());
